@@ -128,6 +128,45 @@ fn steerable(rng: &mut Rng) -> Scenario {
     }
 }
 
+/// A trajectory built on purpose around the stopping boundary: a one-weight linear model
+/// under the AE objective moves by exactly `step` per epoch, so its validation loss falls
+/// for F-1 epochs, then rises strictly for exactly R recorded epochs, then dips (the weight
+/// overshoots the training target and turns). R is drawn within a few entries of the
+/// tolerance, on both sides: a run of R >= tolerance must stop exactly when the run reaches
+/// `tolerance` entries, a run one or two entries short must not stop at all — for windows
+/// of 2 to 130 entries.
+fn constructed_window(rng: &mut Rng, long: bool) -> Scenario {
+    let tol: usize = if long {
+        rng.pick(&[30usize, 63, 64, 65, 66, 100, 127, 128, 129, 130])
+    } else {
+        rng.range(2, 8)
+    };
+    let f = rng.range(1, 4);
+    let r = (tol as i64 + rng.pick(&[-3i64, -2, -1, -1, 0, 0, 1, 2])).max(2) as usize;
+    let k = r + f - 1;
+    let step = rng.pick(&[0.01f32, 0.0078125, 0.02]);
+    let dir = if rng.chance(0.5) { 1.0f32 } else { -1.0 };
+    let w0 = rng.uniform(-0.5, 0.5);
+    let t = w0 + dir * (k as f32 - 0.5) * step;
+    let v = w0 + dir * (f as f32 - 0.5) * step;
+    let mut net = NetCfg::plain(ShapeCfg::Flat(1), vec![LayerCfg::Dense { out: 1, act: Act::Linear, bias: false, dropout: None }]);
+    net.optimizer = Some(OptCfg::SGD { lr: step, decay: None });
+    net.objective = Obj::AE;
+    Scenario {
+        net,
+        train: Data { x: vec![vec![1.0]], y: vec![vec![t]] },
+        batch: 1,
+        epochs: (k + rng.range(2, 12)) as i32,
+        val: Some(Data { x: vec![vec![1.0]], y: vec![vec![v]] }),
+        early_tol: tol as i32,
+        eval: None,
+        acc_tol: 1e-3,
+        pred: Vec::new(),
+        init_params: Some(vec![vec![w0]]),
+        print: if rng.chance(0.2) { Some(rng.pick(&[1i32, 2, 7])) } else { None },
+    }
+}
+
 impl Property for C13 {
     type Case = Case;
 
@@ -172,12 +211,35 @@ impl Property for C13 {
             "stop_later_than_first_possible_epoch",
             "budget_le_tolerance",
             "nan_in_trajectory",
+            "budget_ge_100",
+            "tolerance_ge_10",
+            "tolerance_ge_65_with_long_run",
+            "run_one_short_of_tolerance",
+            "run_reaches_tolerance",
         ]
     }
 
     fn generate(&self, rng: &mut Rng, _tier: Tier) -> Case {
-        let sc = if rng.chance(0.75) {
-            steerable(rng)
+        let scale_case = begin_case(rng);
+        let sc = if (scale_case && rng.chance(0.5)) || rng.chance(0.03) {
+            constructed_window(rng, scale_case)
+        } else if rng.chance(0.75) {
+            let mut sc = steerable(rng);
+            if scale_case {
+                // long runs: budgets in the hundreds, windows up to beyond 128 entries, and
+                // slow dynamics (tiny steps, heavy momentum) so that the validation loss
+                // rises or falls monotonically for tens of epochs before it turns
+                sc.epochs = rng.range(60, 400) as i32;
+                sc.early_tol = rng.pick(&[1i32, 3, 8, 15, 30, 63, 64, 65, 66, 100, 129]);
+                if rng.chance(0.6) {
+                    sc.net.optimizer = Some(if rng.chance(0.6) {
+                        OptCfg::SGDM { lr: rng.uniform(0.0006, 0.003), momentum: 0.99, dampening: 0.0, decay: None }
+                    } else {
+                        OptCfg::SGD { lr: rng.uniform(0.0005, 0.01), decay: None }
+                    });
+                }
+            }
+            sc
         } else {
             let mut sc = super::c05::gen_scenario(rng, false);
             if rng.chance(0.85) {
@@ -208,6 +270,9 @@ impl Property for C13 {
         stats.probe("tolerance_1", sc.val.is_some() && tol == 1);
         stats.probe("tolerance_ge_4", sc.val.is_some() && tol >= 4);
         stats.probe("budget_le_tolerance", sc.val.is_some() && budget <= tol);
+        stats.probe("budget_ge_100", budget >= 100);
+        stats.probe("tolerance_ge_10", sc.val.is_some() && tol >= 10);
+        stats.probe("tolerance_ge_65_with_long_run", sc.val.is_some() && tol >= 65 && budget > tol + 10);
 
         let (got, info) = run_env(&case.env, |ctx| execute(sc, ctx));
         stats.execution(&case.env, &info);
@@ -303,6 +368,19 @@ impl Property for C13 {
                     ),
                 );
             }
+            // longest strictly rising run (in entries) and how it relates to the window
+            let mut best = 1usize;
+            let mut cur = 1usize;
+            for w in got.val_loss.windows(2) {
+                if w[0] < w[1] {
+                    cur += 1;
+                    best = best.max(cur);
+                } else {
+                    cur = 1;
+                }
+            }
+            stats.probe("run_one_short_of_tolerance", tol >= 2 && best + 1 == tol && run > tol);
+            stats.probe("run_reaches_tolerance", tol >= 2 && best == tol && run < budget);
             // ---- reach probes ------------------------------------------------------------
             stats.probe("early_stop_fired", run < budget);
             stats.probe("ran_to_budget_with_validation", run == budget && budget > tol);
